@@ -42,7 +42,10 @@ package persistence
 //@ ensures[store-read-passthrough] ret0 == ret0(Load) && ret1 == ret1(Load) && arg(Load, 1) == key
 
 //@ func (*ticket).loadSession
-//@ prop C13 C01 C02 C12
+//@ safety
+//@ prop C13 C01 C02 C12 C19
+//@ ensures[a-stored-value-that-does-not-decode-is-an-error] called(DecodeSessionState) && ret1(DecodeSessionState) != nil ==> ret1 != nil && ret0 == nil
+//@     && !called(initLock)
 //@ ensures[loader-error-is-error] ret1(loader) != nil ==> ret1 != nil && ret0 == nil
 //@ ensures[session-only-from-authenticated-decode] ret0 != nil ==> ret1(loader) == nil && called(DecodeSessionState)
 //@     && ret1(DecodeSessionState) == nil && ret0 == ret0(DecodeSessionState) && arg(DecodeSessionState, 0) == ret0(loader)
